@@ -208,6 +208,31 @@ Proof. induction fuel as [|f IH]; intros w Q HL.
       intros x Hx. unfold qids in *. rewrite map_rev. now apply in_rev in Hx. }
     apply Nat.ltb_lt in L. rewrite L. apply IH. apply Nat.ltb_lt in L. lia. Qed.
 
+(* a set in which every node was true before (the entry of lyd_new_implicit_*: only nodes it created are queued) is
+   resolved without an error *)
+Lemma pass_no_err todo : forall w Q, forallb snd todo = true -> forall n, pass todo w Q <> inr n.
+Proof. induction todo as [|[m wt] t IH]; cbn [pass forallb]; intros w Q H n; [discriminate|].
+  apply andb_true_iff in H. destruct H as [H1 H2]. cbn in H1. subst wt.
+  destruct (blocked Q m); [now apply IH|]. destruct (cond m w); now apply IH. Qed.
+
+Lemma forallb_incl {A} (f : A -> bool) l1 l2 : incl l1 l2 -> forallb f l2 = true -> forallb f l1 = true.
+Proof. intros I H. apply forallb_forall. intros x Hx. rewrite forallb_forall in H. apply H. now apply I. Qed.
+
+Theorem run_all_true_done fuel : forall w Q, length Q <= fuel -> forallb snd Q = true -> exists w', run fuel w Q = Done w'.
+Proof. induction fuel as [|f IH]; intros w Q HL HT.
+  - destruct Q; [cbn; eauto | cbn in HL; lia].
+  - destruct Q as [|a Q0]; [cbn; eauto|]. set (Q := a :: Q0) in *.
+    change (run (S f) w Q) with (match pass (rev Q) w Q with inr n => Err n
+      | inl (w', Q') => if length Q' <? length Q then run f w' Q' else Stuck end).
+    destruct (pass (rev Q) w Q) as [[w' Q']|n] eqn:E.
+    + assert (L : length Q' < length Q).
+      { apply (pass_shrinks _ Q _ Q' (rev Q)) in E; [exact E | subst Q; discriminate |].
+        intros x Hx. unfold qids in *. rewrite map_rev. now apply in_rev in Hx. }
+      pose proof L as L2. apply Nat.ltb_lt in L. rewrite L. apply IH; [lia|].
+      apply (forallb_incl snd Q' Q); [exact (pass_incl _ _ _ _ _ E) | exact HT].
+    + exfalso. apply (pass_no_err (rev Q) w Q) with (n := n); [|exact E].
+      apply (forallb_incl snd (rev Q) Q); [intros x Hx; now apply in_rev in Hx | exact HT]. Qed.
+
 (* ---- what a run computes: a stable solution *)
 (* D = the deleted nodes: queued, was-true, condition false in the final world; every other queued node has a true condition *)
 Definition Sol (w0 : world) (Q0 : list item) (D : list id) :=
@@ -568,3 +593,6 @@ Proof. intros A ND Hd H1 H2.
   apply (run_split nat (pcond p) (pdeps p) (fun x => x) (acyclicb_spec p A)
            (fun n w1 w2 H => ceval_agree (expr_of p n) w1 w2 H) w Q1 Q2 (length Q1) (length Q2) _ w1 w2 ND Hd H1 H2).
   apply le_n. Qed.
+
+Theorem wrun_all_true_done p w Q : acyclicb p = true -> forallb snd Q = true -> exists w', wrun p w Q = Done w'.
+Proof. intros A H. apply (run_all_true_done nat (pcond p) (pdeps p) (fun x => x) (acyclicb_spec p A)); [apply le_n|exact H]. Qed.
